@@ -365,6 +365,8 @@ def strategy(profile, quick):
         base = e2e.case_strategy("elementwise", max_ops=3, big=False, dtypes=("int8", "int8", "uint8"))
     elif profile == "slices":
         base = e2e.case_strategy("slices", max_ops=5, big=False, dtypes=("int8", "int8", "uint8"))
+    elif profile == "heavy":
+        base = e2e.case_strategy("heavy", max_ops=4, big=False, small_arena=True, dtypes=("int8", "int8", "uint8"))
     elif profile == "head":
         base = e2e.case_strategy("head", max_ops=3, big=False, dtypes=("int8", "int8", "uint8", "int16"))
     elif profile == "approx16":
@@ -398,6 +400,7 @@ def parts(ctx):
     ps += [Part("lutmix%02d" % i, part, ("lutmix", i, 14 if q else 400)) for i in range(2)]
     ps += [Part("tall%02d" % i, part, ("tall", i, 10 if q else 300)) for i in range(2)]
     ps += [Part("head%02d" % i, part, ("head", i, 16 if q else 400)) for i in range(1)]
+    ps += [Part("heavy%02d" % i, part, ("heavy", i, 10 if q else 300)) for i in range(1)]
     ps += [Part("xconfig-%s" % p, xconfig_part, (p, 0, 10 if q else 400)) for p in ("npu", "cascade", "wide")]
     ps += [Part("approx16-%02d" % i, part, ("approx16", i, 20 if q else 500)) for i in range(2)]
     return ps
